@@ -51,6 +51,28 @@ func VP_C16_frame() {
 	vp.Cover("end")
 }
 
+// payloads up to the size limit (declared length 4096 = payload 4086) are
+// written and read back identically; contents arbitrary at the ends and in the
+// middle, sizes concrete at the boundary.
+func VP_C16_frame_limit() {
+	n := []int{4000, MaxRCONPackageSize - 14, MaxRCONPackageSize - 13, MaxRCONPackageSize - 11, MaxRCONPackageSize - 10}[vp.Choice(5)]
+	payload := make([]byte, n)
+	payload[0], payload[n/2], payload[n-1] = vp.Byte(), vp.Byte(), vp.Byte()
+	id, typ := vp.Int32(), vp.Int32()
+	a, b := vpPipe()
+	w := &RCONConn{Conn: a}
+	vp.Assert(w.WritePacket(id, typ, string(payload)) == nil, "WritePacket err==nil")
+	out := *a.out
+	vp.Assert(len(out) == 4+4+4+n+2, "frame length")
+	r := &RCONConn{Conn: b}
+	gid, gtyp, gp, err := r.ReadPacket()
+	vp.Assert(err == nil, "ReadPacket err==nil")
+	vp.Assert(gid == id && gtyp == typ, "id and type round trip")
+	vp.Assert(len(gp) == n && gp[0] == payload[0] && gp[n/2] == payload[n/2] && gp[n-1] == payload[n-1], "payload round trip")
+	vp.Assert(b.unread() == 0, "stream fully consumed")
+	vp.Cover("end")
+}
+
 // declared length below the minimum or above the limit is rejected, for every int32.
 func VP_C16_reject() {
 	l := vp.Int32()
@@ -135,7 +157,9 @@ func VP_C16_login() {
 func VP_C16_cmd() {
 	a, b := vpPipe()
 	cli := &RCONConn{Conn: a, ReqID: vp.Int32()}
-	srv := &RCONConn{Conn: b}
+	// the server side is in an arbitrary state: any id may have been recorded
+	// by an earlier login or command (one step from any history)
+	srv := &RCONConn{Conn: b, ReqID: vp.Int32()}
 	cmd := string(vp.Bytes(vp.Choice(4)))
 	vp.Assert(cli.Cmd(cmd) == nil, "Cmd")
 	got, err := srv.AcceptCmd()
